@@ -56,8 +56,11 @@ S10 = Struct("h"/S0, "t"/OneOf(Byte, [1, 7, 255]), "z"/Array(1, S1))
 S11 = Select(Prefixed(Byte, S0), S0)
 S12 = Prefixed(Byte, Struct("a"/Byte, "b"/Byte, "c"/S0))
 S13 = Struct("p"/S12, "q"/S12, "t"/Byte)
+S14 = Select(Int8ub, Int16ub, Int32ub)
+S15 = Struct("o"/Optional(Int16ub), "s"/S14, "r"/Optional(S0))
+S16 = Struct("k"/Byte, "d"/ProcessXor(this.k, Bytes(3)), "e"/ProcessRotateLeft(this.k, 2, Bytes(2)))
 '''
-POOL_NAMES = ['S%d' % i for i in range(14)]
+POOL_NAMES = ['S%d' % i for i in range(17)]
 
 
 def namespace():
